@@ -299,5 +299,5 @@ def rule_auth_ts_writers(ctx):
             r.instance(public_entry=pub, writes_timestamps=True, allowed=ok)
             if not ok:
                 r.violate(pub, 'timestamp-written', 'timestamp', 'public entry %s can write entry timestamps' % pub, where=ctx.where(pub))
-    r.require_floor(3, 'functions / entries checked')
+    r.require_floor(3 if ctx.has_sync else 2, 'functions / entries checked')
     return r
